@@ -97,3 +97,47 @@ Theorem C10_compile_range_alloc_witnesses :
              compile_alloc s = 18446744073709551615%Z).
 Proof. exact range_alloc_witnesses. Qed.
 Print Assumptions C10_compile_range_alloc_witnesses.
+
+(* ====================================================================================================
+   DAG-JSON part (json cluster): the dag-json / json decoder is total and bounded.
+   Model: Codec/DagJson.v (refmt JSON tokenizer + dagjson unmarshal with its look-ahead window + Decode),
+   proofs: Proofs/JsonTotal.v.  strconv.ParseFloat and cid.Decode are universally quantified functions. *)
+Require Import IP.Codec.DagJson IP.Proofs.JsonTotal.
+
+(* Total: for every option setting, every byte list and every behaviour of ParseFloat / cid.Decode the decoder
+   model ends in a value or an error.  Its two abnormal outcomes are unreachable: JDFuel (out of fuel) and
+   JDStale (a look-ahead slot read before it was filled: ensure(k) is only ever called with k-1 slots filled).
+   Measure: mu = tokens held in the look-ahead window + unread input bytes; every token costs >= 1 byte and
+   every value >= 1 token, unmarshal needs fuel 2*mu + 2, the model supplies 3*|input| + 4.
+   The model has no panic outcome: the modelled Go code indexes only the fixed 7-slot window at constant
+   indices and its panic("unreachable") statements sit behind exhaustive switches; tied by the recover()-wrapped run. *)
+Theorem C10_json_decode_total : forall parse_float cid_parse o bs,
+  jdecode parse_float cid_parse o bs <> Err JDFuel /\ jdecode parse_float cid_parse o bs <> Err JDStale.
+Proof. exact json_decode_total. Qed.
+Print Assumptions C10_json_decode_total.
+
+(* Bounded: whatever is accepted nests at most MaxDepth deep (default go_json_defaultMaxDepth, regenerated from
+   codec/dagjson/unmarshal.go) and has at most one node per input byte.  The Go dag-json decoder has NO
+   allocation budget (unlike dag-cbor): JSON carries no length claims, so allocation is bounded by the input
+   length alone, which is what the node bound states. *)
+Theorem C10_json_decode_bounded : forall parse_float cid_parse o bs v rest,
+  jdecode parse_float cid_parse o bs = Ok (v, rest) ->
+  (Z.of_nat (dm_depth v) <= jmax_depth o)%Z /\ (jnodes v <= length bs)%nat.
+Proof. exact json_decode_bounded. Qed.
+Print Assumptions C10_json_decode_bounded.
+
+(* non-vacuity: 1024 nested lists are accepted with depth 1024 under the default options, 1025 are rejected with
+   the depth error; same at a configured MaxDepth of 3, where the reserved bytes form counts as one level *)
+Theorem C10_json_depth_limit_witnesses :
+  (exists v, jdecode no_float no_cid dagjson_dopts (nest 1024 []) = Ok (v, []) /\ dm_depth v = 1024%nat) /\
+  jdecode no_float no_cid dagjson_dopts (nest 1025 []) = Err JDDepth /\
+  (exists v, jdecode no_float no_cid {| jd_links := true; jd_bytes := true; jd_dont_parse_beyond := false; jd_max_depth := 3 |}
+               (nest 3 [49]) = Ok (v, []) /\ dm_depth v = 3%nat) /\
+  jdecode no_float no_cid {| jd_links := true; jd_bytes := true; jd_dont_parse_beyond := false; jd_max_depth := 3 |}
+    (nest 4 [49]) = Err JDDepth /\
+  jdecode no_float no_cid {| jd_links := true; jd_bytes := true; jd_dont_parse_beyond := false; jd_max_depth := 3 |}
+    (nest 3 [123; 34; 47; 34; 58; 123; 34; 98; 121; 116; 101; 115; 34; 58; 34; 89; 81; 34; 125; 125]) = Err JDDepth /\
+  jdecode no_float no_cid {| jd_links := true; jd_bytes := true; jd_dont_parse_beyond := false; jd_max_depth := 3 |}
+    (nest 2 [123; 34; 47; 34; 58; 123; 34; 98; 121; 116; 101; 115; 34; 58; 34; 89; 81; 34; 125; 125]) = Ok (DList [DList [DBytes [97]]], []).
+Proof. exact json_depth_limit_example. Qed.
+Print Assumptions C10_json_depth_limit_witnesses.
